@@ -39,3 +39,254 @@ Theorem cred_merklize_doc_independent O c c' d d' :
   agree_out merklize_deleted d_W3CCredential c c' ->
   cred_merklize_doc O c = Ok d -> cred_merklize_doc O c' = Ok d' -> d = d'.
 Proof. apply merklize_doc_independent. Qed.
+
+(* ==================================================================== *)
+(* C14_lossless on the descriptors of this run                          *)
+From GSP Require Import Codec.Lossless.
+
+(* side conditions of Lossless.top_lossless, evaluated on the generated list: JSON names
+   distinct up to case; every field except the deleted ones ("proof") is of a lossless
+   kind (string, pointer, []string, interface{}, map, nested plain struct) or *time.Time *)
+Example w3c_side_conditions : top_ok merklize_deleted d_W3CCredential = true.
+Proof. vm_compute. reflexivity. Qed.
+
+Lemma w3c_time_keys k :
+  time_key d_W3CCredential k = (String.eqb "expirationDate" k || String.eqb "issuanceDate" k)%bool.
+Proof.
+  unfold time_key. simpl.
+  rewrite ?andb_false_r, ?andb_true_r. simpl. rewrite ?orb_false_r.
+  destruct (String.eqb "expirationDate" k), (String.eqb "issuanceDate" k); reflexivity.
+Qed.
+
+(* ---- the supported document shape, spelled out ---- *)
+Section Supported.
+  Variable O : oracles.
+  Notation renum := (o_renum O).
+
+  Definition absent_or_null (m : members) (key : string) : Prop :=
+    jget key m = None \/ jget key m = Some JNull.
+  Definition has (m : members) (key : string) (P : json -> Prop) : Prop :=
+    exists v, jget key m = Some v /\ P v.
+
+  Definition is_string (v : json) : Prop := exists s, v = JStr s.
+  Definition is_string_array (v : json) : Prop := exists l, v = JArr (map JStr l).
+  (* an RFC 3339 time accepted by time.Time's decoder whose re-encoding succeeds (zone hour < 24) *)
+  Definition is_time_string (v : json) : Prop :=
+    exists s t s', v = JStr s /\ parse_time s = Some t /\ format_time t = Some s'.
+  (* any JSON value / object whose numbers are in float64 range *)
+  Definition is_any (v : json) : Prop := v <> JNull /\ exists a, norm renum v = Some a.
+  Definition is_any_object (v : json) : Prop := exists sm a, v = JObj sm /\ norm renum v = Some a.
+  (* exactly {"id": string, "type": string}, in any order *)
+  Definition is_id_type_object (v : json) : Prop :=
+    exists sm i t, v = JObj sm /\ NoDup (keys sm) /\ incl (keys sm) ["id"; "type"] /\
+                   jget "id" sm = Some (JStr i) /\ jget "type" sm = Some (JStr t).
+
+  Definition proof_field : fdesc := FD "" "proof" true (KCustom CuCredentialProofs).
+
+  Definition w3c_supported (j : json) : Prop :=
+    exists m, j = JObj m /\ NoDup (keys m) /\
+      incl (keys m) ["id"; "@context"; "type"; "expirationDate"; "issuanceDate"; "credentialSubject";
+                     "credentialStatus"; "issuer"; "credentialSchema"; "proof"; "refreshService"; "displayMethod"] /\
+      (jget "id" m = None \/ has m "id" (fun v => exists s, v = JStr s /\ s <> "")) /\
+      has m "@context" is_string_array /\
+      has m "type" is_string_array /\
+      (absent_or_null m "expirationDate" \/ has m "expirationDate" is_time_string) /\
+      (absent_or_null m "issuanceDate" \/ has m "issuanceDate" is_time_string) /\
+      has m "credentialSubject" is_any_object /\
+      (absent_or_null m "credentialStatus" \/ has m "credentialStatus" is_any) /\
+      has m "issuer" is_string /\
+      has m "credentialSchema" is_id_type_object /\
+      (absent_or_null m "refreshService" \/ has m "refreshService" is_id_type_object) /\
+      (absent_or_null m "displayMethod" \/ has m "displayMethod" is_id_type_object) /\
+      (* any proof member the decoder accepts: 0..n proofs of known and unknown types *)
+      (exists oa, field_out O (cdec1 O repo_env) (cenc1 repo_env) m proof_field = Ok oa) /\
+      (forall v, jget "proof" m = Some v -> exists a, norm renum v = Some a).
+
+  Lemma id_type_shape v : is_id_type_object v ->
+    shape O (KStruct [FD "ID" "id" false KString; FD "Type" "type" false KString]) v /\
+    shape O (KPtrStruct [FD "ID" "id" false KString; FD "Type" "type" false KString]) v.
+  Proof.
+    intros (sm & i & t & -> & Hnd & Hincl & Hi & Ht).
+    assert (F : Forall (fun f => (jget (fd_key f) sm = None /\ fd_omit f = true /\ is_empty (zero (fd_kind f)) = true) \/
+                 (exists v, jget (fd_key f) sm = Some v /\ shape O (fd_kind f) v /\
+                            (fd_omit f = true -> nonempty (fd_kind f) v)))
+               [FD "ID" "id" false KString; FD "Type" "type" false KString]).
+    { constructor; [right; exists (JStr i); simpl; split; [assumption|split; [constructor|discriminate]]|].
+      constructor; [right; exists (JStr t); simpl; split; [assumption|split; [constructor|discriminate]]|constructor]. }
+    split; [apply sh_struct|apply sh_pstruct]; assumption.
+  Qed.
+End Supported.
+
+Section SupportedShape.
+  Variable O : oracles.
+
+  Ltac absent_case := left; repeat split; assumption.
+  Ltac null_case := right; left; repeat split; assumption.
+
+  Lemma w3c_supported_shape j :
+    w3c_supported O j ->
+    top_shape O (cdec1 O repo_env) (cenc1 repo_env) merklize_deleted d_W3CCredential j.
+  Proof.
+    intros (m & -> & Hnd & Hincl & Hid & Hctx & Hty & Hexp & Hiss & Hsub & Hst & Hissuer & Hsch & Hrs & Hdm & Hproof & Hpn).
+    exists m. split; [reflexivity|]. split; [assumption|]. split; [exact Hincl|]. split.
+    - unfold d_W3CCredential.
+      (* id *)
+      constructor.
+      { unfold top_field_ok; simpl. destruct Hid as [H|(v & H & s & -> & Hs)]; [absent_case|].
+        right; right. exists (JStr s). split; [assumption|]. split; [constructor|].
+        intros _ E. inversion E. contradiction. }
+      (* @context *)
+      constructor.
+      { unfold top_field_ok; simpl. destruct Hctx as (v & H & l & ->).
+        right; right. exists (JArr (map JStr l)). split; [assumption|]. split; [constructor|discriminate]. }
+      (* type *)
+      constructor.
+      { unfold top_field_ok; simpl. destruct Hty as (v & H & l & ->).
+        right; right. exists (JArr (map JStr l)). split; [assumption|]. split; [constructor|discriminate]. }
+      (* expirationDate *)
+      constructor.
+      { unfold top_field_ok; simpl. destruct Hexp as [[H|H]|(v & H & s & t & s' & -> & Hp & Hf)]; [absent_case|null_case|].
+        right; right. exists (JStr s). split; [assumption|]. split; [econstructor; eauto|intros _; exact I]. }
+      (* issuanceDate *)
+      constructor.
+      { unfold top_field_ok; simpl. destruct Hiss as [[H|H]|(v & H & s & t & s' & -> & Hp & Hf)]; [absent_case|null_case|].
+        right; right. exists (JStr s). split; [assumption|]. split; [econstructor; eauto|intros _; exact I]. }
+      (* credentialSubject *)
+      constructor.
+      { unfold top_field_ok; simpl. destruct Hsub as (v & H & sm & a & -> & Hn).
+        right; right. exists (JObj sm). split; [assumption|]. split; [econstructor; eauto|discriminate]. }
+      (* credentialStatus *)
+      constructor.
+      { unfold top_field_ok; simpl. destruct Hst as [[H|H]|(v & H & Hnn & a & Hn)]; [absent_case|null_case|].
+        right; right. exists v. split; [assumption|]. split; [econstructor; eauto|intros _; exact I]. }
+      (* issuer *)
+      constructor.
+      { unfold top_field_ok; simpl. destruct Hissuer as (v & H & s & ->).
+        right; right. exists (JStr s). split; [assumption|]. split; [constructor|discriminate]. }
+      (* credentialSchema *)
+      constructor.
+      { unfold top_field_ok; simpl. destruct Hsch as (v & H & Hv).
+        right; right. exists v. split; [assumption|]. split; [apply (id_type_shape O v Hv)|discriminate]. }
+      (* proof: deleted by Merklize *)
+      constructor.
+      { unfold top_field_ok; simpl. exact Hproof. }
+      (* refreshService *)
+      constructor.
+      { unfold top_field_ok; simpl. destruct Hrs as [[H|H]|(v & H & Hv)]; [absent_case|null_case|].
+        right; right. exists v. split; [assumption|]. split; [apply (id_type_shape O v Hv)|intros _; exact I]. }
+      (* displayMethod *)
+      constructor.
+      { unfold top_field_ok; simpl. destruct Hdm as [[H|H]|(v & H & Hv)]; [absent_case|null_case|].
+        right; right. exists v. split; [assumption|]. split; [apply (id_type_shape O v Hv)|intros _; exact I]. }
+      constructor.
+    - intros k v Hk G. simpl in Hk. destruct Hk as [Hk|Hk]; [subst k|contradiction]. apply Hpn. assumption.
+  Qed.
+
+  Hypothesis renum_idem : forall n n', o_renum O n = Some n' -> o_renum O n' = Some n'.
+  Hypothesis time_rt : forall s t s', parse_time s = Some t -> format_time t = Some s' -> parse_time s' = Some t.
+
+  (* C14_lossless *)
+  Theorem cred_lossless j :
+    w3c_supported O j ->
+    exists c d r,
+      cred_decode O j = Ok c /\
+      cred_merklize_doc O c = Ok (JObj d) /\
+      cred_reference_doc O j = Ok (JObj r) /\
+      forall k,
+        (k = "expirationDate" \/ k = "issuanceDate" -> same_time (jget_nn k d) (jget_nn k r)) /\
+        (k <> "expirationDate" -> k <> "issuanceDate" -> jget_nn k d = jget_nn k r).
+  Proof.
+    intros Hs. apply w3c_supported_shape in Hs.
+    destruct (top_lossless O (cdec1 O repo_env) (cenc1 repo_env) renum_idem time_rt
+                merklize_deleted d_W3CCredential j w3c_side_conditions Hs) as (c & d & r & Hd & Hm & Hr & Hk).
+    exists c, d, r. split; [exact Hd|]. split; [exact Hm|]. split; [exact Hr|].
+    intros k. specialize (Hk k). rewrite w3c_time_keys in Hk. split.
+    - intros [E|E]; subst k; simpl in Hk; exact Hk.
+    - intros H1 H2.
+      destruct (String.eqb "expirationDate" k) eqn:E1; [apply String.eqb_eq in E1; congruence|].
+      destruct (String.eqb "issuanceDate" k) eqn:E2; [apply String.eqb_eq in E2; congruence|].
+      exact Hk.
+  Qed.
+End SupportedShape.
+
+(* "hence equal facts and equal root": any function of the document that does not
+   look at member order (both documents are maps), at null members (JSON-LD drops them)
+   and at the RFC 3339 spelling of the two xsd:dateTime members (C04_time: the leaf is
+   the instant) gives the same result on both documents. *)
+Definition doc_equiv (d r : members) : Prop :=
+  forall k,
+    (k = "expirationDate" \/ k = "issuanceDate" -> same_time (jget_nn k d) (jget_nn k r)) /\
+    (k <> "expirationDate" -> k <> "issuanceDate" -> jget_nn k d = jget_nn k r).
+
+Theorem cred_same_root (R : Type) (mz : json -> R) O j :
+  (forall n n', o_renum O n = Some n' -> o_renum O n' = Some n') ->
+  (forall s t s', parse_time s = Some t -> format_time t = Some s' -> parse_time s' = Some t) ->
+  (forall d r, doc_equiv d r -> mz (JObj d) = mz (JObj r)) ->
+  w3c_supported O j ->
+  exists c d r, cred_decode O j = Ok c /\ cred_merklize_doc O c = Ok d /\
+                cred_reference_doc O j = Ok r /\ mz d = mz r.
+Proof.
+  intros H1 H2 Hmz Hs. destruct (cred_lossless O H1 H2 j Hs) as (c & d & r & Hd & Hm & Hr & Hk).
+  exists c, (JObj d), (JObj r). repeat split; try assumption. apply Hmz. exact Hk.
+Qed.
+
+(* ---- non-vacuity: a concrete supported document (all optional members, dates with
+   offset and fraction, nested subject, one unknown and no known proof) ---- *)
+Definition ex_oracles : oracles :=
+  {| o_renum := fun n => Some n; o_mtp := fun j => Some j; o_claim := fun _ => true; o_sig := fun _ => true |}.
+
+Definition ex_doc : json :=
+  JObj [("@context", JArr [JStr "https://www.w3.org/2018/credentials/v1"; JStr "https://example.com/c14/context.jsonld"]);
+        ("id", JStr "urn:uuid:1");
+        ("type", JArr [JStr "VerifiableCredential"; JStr "C14Credential"]);
+        ("issuanceDate", JStr "2024-03-05T10:20:30.500+05:30");
+        ("expirationDate", JNull);
+        ("credentialSubject", JObj [("id", JStr "did:example:1"); ("age", JNum (NInt 42));
+                                    ("address", JObj [("zip", JNum (NInt 7)); ("street", JStr "x")])]);
+        ("issuer", JStr "did:example:issuer");
+        ("credentialSchema", JObj [("type", JStr "JsonSchemaValidator2018"); ("id", JStr "https://example.com/s.json")]);
+        ("displayMethod", JObj [("id", JStr "https://example.com/d"); ("type", JStr "C14Display")]);
+        ("proof", JArr [JObj [("type", JStr "Ed25519Signature2018"); ("jws", JStr "abc")]])].
+
+Example ex_doc_supported : w3c_supported ex_oracles ex_doc.
+Proof.
+  exists (match ex_doc with JObj m => m | _ => [] end). split; [reflexivity|].
+  split. { simpl. repeat (constructor; [simpl; intuition discriminate|]). constructor. }
+  split. { intros k Hk. simpl in Hk. simpl. intuition. }
+  split. { right. exists (JStr "urn:uuid:1"). split; [reflexivity|]. exists "urn:uuid:1". split; [reflexivity|discriminate]. }
+  split. { eexists. split; [reflexivity|]. exists ["https://www.w3.org/2018/credentials/v1"; "https://example.com/c14/context.jsonld"]. reflexivity. }
+  split. { eexists. split; [reflexivity|]. exists ["VerifiableCredential"; "C14Credential"]. reflexivity. }
+  split. { left. right. reflexivity. }
+  split. { right. eexists. split; [reflexivity|]. eexists _, _, _. split; [reflexivity|]. split; vm_compute; reflexivity. }
+  split. { eexists. split; [reflexivity|]. eexists _, _. split; [reflexivity|]. vm_compute. reflexivity. }
+  split. { left. left. reflexivity. }
+  split. { eexists. split; [reflexivity|]. eexists. reflexivity. }
+  split. { eexists. split; [reflexivity|]. eexists _, _, _. split; [reflexivity|].
+           split. { simpl. repeat (constructor; [simpl; intuition discriminate|]). constructor. }
+           split. { intros k Hk. simpl in Hk. simpl. intuition. }
+           split; reflexivity. }
+  split. { left. left. reflexivity. }
+  split. { right. eexists. split; [reflexivity|]. eexists _, _, _. split; [reflexivity|].
+           split. { simpl. repeat (constructor; [simpl; intuition discriminate|]). constructor. }
+           split. { intros k Hk. simpl in Hk. simpl. intuition. }
+           split; reflexivity. }
+  split. { eexists. vm_compute. reflexivity. }
+  intros v Hv. vm_compute in Hv. inversion Hv. eexists. vm_compute. reflexivity.
+Qed.
+
+(* and the model evaluates on it: the struct view re-spells the date and drops the null *)
+Example ex_doc_evaluates :
+  match cred_decode ex_oracles ex_doc with
+  | Ok c => match cred_merklize_doc ex_oracles c, cred_reference_doc ex_oracles ex_doc with
+            | Ok (JObj d), Ok (JObj r) =>
+                jget "issuanceDate" d = Some (JStr "2024-03-05T10:20:30.5+05:30") /\
+                jget "issuanceDate" r = Some (JStr "2024-03-05T10:20:30.500+05:30") /\
+                jget "expirationDate" d = None /\ jget "expirationDate" r = Some JNull /\
+                jget "proof" d = None /\ jget "proof" r = None /\
+                jget "credentialSubject" d = jget "credentialSubject" r /\
+                all_kinds c = ["CommonProof"]
+            | _, _ => False
+            end
+  | _ => False
+  end.
+Proof. vm_compute. repeat split; reflexivity. Qed.
